@@ -8,17 +8,18 @@ Open Scope N_scope.
 
 (* ---------- writer.standardize_value ---------------------------------------------------------- *)
 (* the observations of a header value the Python makes, as the model reads them *)
-Definition hval_ops (fzero : list N -> bool) : dyn_ops hval :=
+Definition hval_ops (fstr : list N -> list N) (fzero : list N -> bool) : dyn_ops hval :=
   mk_dyn_ops hval
     (fun v => negb (v_falsy fzero v))                            (* bool(value) *)
     (v_is_zero fzero)                                             (* value == 0 *)
     (fun v => match v with VNone => true | _ => false end)        (* value is None *)
-    VInt VStr.
+    VInt VStr
+    (vstr fstr).                                                  (* str(value), "%s" % value *)
 
-Theorem standardize_pin : forall fzero value unit,
-  standardize fzero value unit = py_standardize_value (hval_ops fzero) value unit.
+Theorem standardize_pin : forall fstr fzero value unit,
+  standardize fzero value unit = py_standardize_value (hval_ops fstr fzero) value unit.
 Proof.
-  intros fzero v u. unfold standardize, py_standardize_value, hval_ops, pyo_truthy_str.
+  intros fstr fzero v u. unfold standardize, py_standardize_value, hval_ops, pyo_truthy_str.
   cbn [dyn_truthy dyn_is_zero dyn_is_none dyn_of_int dyn_of_str].
   destruct u as [|c u]; destruct v as [z|l|s|]; cbn [v_falsy v_is_zero andb negb]; try reflexivity.
   - destruct (z =? 0)%Z; reflexivity.
